@@ -40,6 +40,17 @@ def skeleton(kind):
         d.add_child(k)
         k.add_child(Node("organizationName", content="o"))
         return d
+    if kind == "interleaved":
+        # children that repeat names in NON-adjacent positions (legal mixed content): "kept nodes keep their order" is about
+        # exactly such lists
+        a = Node("abstract")
+        for k, nm in enumerate(["para", "section", "para", "markdown", "section", "para", "markdown"]):
+            c = Node(nm, content=None if nm == "section" else "text %d" % k)
+            if nm == "section":
+                c.add_child(Node("title", content="s%d" % k))
+                c.add_child(Node("para", content="p%d" % k))
+            a.add_child(c)
+        return a
     if kind == "inline":
         # distribution/inline: in the EML schema inline is xs:any, in this library it is an ordinary text leaf - what hangs
         # below it is NOT metadata content
@@ -237,7 +248,7 @@ def w_seeded(seeds):
                 muts.append(m)
         if seed % 40 == 39:
             # hundreds of offending children under one parent, interleaved with allowed ones
-            host = rnd.choice([n for n in walk(root) if n.name in t.node_map])
+            host = rnd.choice([n for n in walk(root) if n.name in t.node_map] or [root])      # (mutations may have renamed every node)
             for i in range(300):
                 host.add_child(Node(rnd.choice(["zzJunk", "title", "zzOther", "para"]), content="x"), index=rnd.randint(0, len(host.children)))
             muts.append({"op": "300 mixed children", "at": host.name})
@@ -256,7 +267,7 @@ def run(rep, tier, seed):
     from harness import gen_tables
     gen_tables.write_rule_table(wd)
     cfgp = os.path.join(wd, "plans.cfg")
-    open(cfgp, "w").write('SPECIFICATION Spec\nCONSTANTS\n  Which = "prune"\n  Skeletons = {"access", "dataset", "metadata", "metadataRoot", "inline", "eml", "relatedProject"}\n'
+    open(cfgp, "w").write('SPECIFICATION Spec\nCONSTANTS\n  Which = "prune"\n  Skeletons = {"access", "dataset", "metadata", "metadataRoot", "inline", "interleaved", "eml", "relatedProject"}\n'
                           f'  MaxSites = 6\n  MaxPlant = {1 if tier == "quick" else 2}\n  MaxItems = 1\nINVARIANT Log\n')
     r = run_tlc("MC_Plans", cfg=cfgp, timeout=600)
     if not r.ok:
